@@ -465,11 +465,6 @@ func sortedFieldNames(ep string) []string {
 }
 
 func TestC19_Hostile(t *testing.T) {
-	defer func() {
-		if srv != nil && srv.cmd.Process != nil {
-			srv.cmd.Process.Kill()
-		}
-	}()
 	c19Main.rapid(t, ev.Pick(400, 8_000), func(t *rapid.T) c19Case {
 		n := rapid.IntRange(2, 16).Draw(t, "n")
 		var c c19Case
